@@ -136,6 +136,7 @@ def crash_case(case):
                 out["problems"].append(("C08", f"jobs re-issued after the crash {preps[:len(locked_rec)]} are not the recorded in-flight jobs {locked_rec}"))
             if tag2 == "crash":
                 continue
+            finished_early = rnd is not None        # the second crash point was never reached: the run simply finished
             if r2["status"] == "none":
                 out["problems"].append(("C08", f"restart after a crash at {out['info']['crashed_effect']} does not start (setup_config returned None)"))
                 return out
@@ -157,6 +158,9 @@ def crash_case(case):
                 out["problems"].append(("C08", f"replaced path(s) {miss_rows} have no row in the data file after a crash at {out['info']['crashed_effect']}"))
             if missing:
                 out["problems"].append(("C14", f"live paths miss files at the end: {missing}"))
+            if finished_early:
+                out["info"]["second_crash"] = "not reached"
+                break
     except Exception as e:  # noqa: BLE001
         import traceback
         out["problems"].append(("harness", f"case crashed: {e!r} {traceback.format_exc()[-800:]}"))
